@@ -63,7 +63,12 @@ Inductive stmt :=
   | SIf (e : expr) (b1 b2 : list stmt)
   | SWhile (e : expr) (b1 b2 : list stmt)
   | SFor (t e : expr) (b1 b2 : list stmt)
-  | SWith (e : expr) (v : option string) (b : list stmt).
+  | SWith (e : expr) (v : option string) (b : list stmt)
+  (* try: body, except clauses (type expression, `as` name, body), else, finally *)
+  | STry (b : list stmt) (hs : list (option expr * option string * list stmt)) (o f : list stmt).
+
+Definition handler := (option expr * option string * list stmt)%type.
+Definition htype (h : handler) : option expr := fst (fst h).
 
 (* ------------------------------------------------------------------ configuration *)
 (* ASTEdgePattern(parent, field, child); None = anf.ANY; a class (or tuple of classes) is
@@ -209,6 +214,22 @@ Definition opt_children (f : string) (o : option expr) : list child :=
 Definition opt_of_children (cs : list child) : option expr :=
   match cs with [] => None | c :: _ => Some (cexpr c) end.
 
+(* The type expression of an except clause.  Try and ExceptHandler have no visit_ method: generic_visit walks the
+   body, then every clause (type, body), then else and finally.  The configuration is never asked about the type
+   (no _ensure_fields_in_anf on the clause), and there is no statement position where something hoisted out of it
+   could go: whatever its visit leaves pending trips `assert not self._pending_statements` of the next statement
+   (or is lost, the known finding anf-pending-lost, which the exporter keeps out of the tie).  The type of an
+   except clause is evaluated lazily -- only while an exception propagates, after the body and the clauses before
+   it -- so the model accepts a try statement only when nothing at all is hoisted out of the types of its clauses. *)
+Definition anf_htype (cfg : config) (t : option expr) (n : nat) : option (option expr * nat) :=
+  match t with
+  | None => Some (None, n)
+  | Some e => match anf_expr cfg e n with
+              | Some (e', [], n') => Some (Some e', n')
+              | _ => None
+              end
+  end.
+
 Fixpoint anf_stmt (cfg : config) (s : stmt) (n : nat) : option (list stmt * nat) :=
   let fix anf_block (b : list stmt) (n : nat) : option (list stmt * nat) :=
     match b with
@@ -312,6 +333,40 @@ Fixpoint anf_stmt (cfg : config) (s : stmt) (n : nat) : option (list stmt * nat)
           | Some (b', n2) => Some (flush H ++ [SWith e' v b'], n2)
           end
       end
+  | STry b hs o f =>   (* no visitor: generic_visit over body, handlers, orelse, finalbody *)
+      let fix anf_handlers (hs : list handler) (n : nat) : option (list handler * nat) :=
+        match hs with
+        | [] => Some ([], n)
+        | (t, v, hb) :: rest =>
+            match anf_htype cfg t n with
+            | None => None
+            | Some (t', n1) =>
+                match anf_block hb n1 with
+                | None => None
+                | Some (hb', n2) =>
+                    match anf_handlers rest n2 with
+                    | None => None
+                    | Some (rest', n3) => Some ((t', v, hb') :: rest', n3)
+                    end
+                end
+            end
+        end in
+      match anf_block b n with
+      | None => None
+      | Some (b', n1) =>
+          match anf_handlers hs n1 with
+          | None => None
+          | Some (hs', n2) =>
+              match anf_block o n2 with
+              | None => None
+              | Some (o', n3) =>
+                  match anf_block f n3 with
+                  | None => None
+                  | Some (f', n4) => Some ([STry b' hs' o' f'], n4)
+                  end
+              end
+          end
+      end
   end.
 
 Fixpoint anf_block (cfg : config) (b : list stmt) (n : nat) : option (list stmt * nat) :=
@@ -324,6 +379,24 @@ Fixpoint anf_block (cfg : config) (b : list stmt) (n : nat) : option (list stmt 
           match anf_block cfg rest n1 with
           | None => None
           | Some (rest', n2) => Some (ss ++ rest', n2)
+          end
+      end
+  end.
+
+Fixpoint anf_handlers (cfg : config) (hs : list handler) (n : nat) : option (list handler * nat) :=
+  match hs with
+  | [] => Some ([], n)
+  | (t, v, hb) :: rest =>
+      match anf_htype cfg t n with
+      | None => None
+      | Some (t', n1) =>
+          match anf_block cfg hb n1 with
+          | None => None
+          | Some (hb', n2) =>
+              match anf_handlers cfg rest n2 with
+              | None => None
+              | Some (rest', n3) => Some ((t', v, hb') :: rest', n3)
+              end
           end
       end
   end.
@@ -468,6 +541,29 @@ Fixpoint guard_stmt (cfg : config) (s : stmt) (n : nat) : bool :=
       | Some (_, _, n1) => gb b n1
       | None => true
       end
+  | STry b hs o f =>
+      let fix gh (hs : list handler) (n : nat) : bool :=
+        match hs with
+        | [] => true
+        | (t, v, hb) :: rest =>
+            match t with Some e => guard_expr cfg e n | None => true end &&
+            match anf_htype cfg t n with
+            | Some (_, n1) =>
+                gb hb n1 && match anf_block cfg hb n1 with Some (_, n2) => gh rest n2 | None => true end
+            | None => true
+            end
+        end in
+      gb b n &&
+      match anf_block cfg b n with
+      | Some (_, n1) =>
+          gh hs n1 &&
+          match anf_handlers cfg hs n1 with
+          | Some (_, n2) =>
+              gb o n2 && match anf_block cfg o n2 with Some (_, n3) => gb f n3 | None => true end
+          | None => true
+          end
+      | None => true
+      end
   end.
 
 Fixpoint guard_block (cfg : config) (b : list stmt) (n : nat) : bool :=
@@ -505,7 +601,8 @@ Definition expected_modes : list (string * vmode) :=
 
 (* node classes the model assumes are walked by generic_visit only *)
 Definition no_visitor : list string :=
-  ["Name"; "Constant"; "Starred"; "keyword"; "withitem"; "Pass"; "Break"; "Continue"; "NamedExpr"].
+  ["Name"; "Constant"; "Starred"; "keyword"; "withitem"; "Pass"; "Break"; "Continue"; "NamedExpr";
+   "Try"; "ExceptHandler"].
 
 Fixpoint lookup_mode (n : string) (t : list (string * vmode)) : option vmode :=
   match t with
